@@ -185,7 +185,7 @@ def run_job(job, work, tier):
             jr.msg = "goto-instrument --dfcc failed:\n" + out[-3000:]
             return jr
         cur = b
-    timeout = job.get("timeout", 900) * (3 if tier == "thorough" else 1)
+    timeout = int(os.environ.get("VERIF_TIMEOUT", job.get("timeout", 900) * (3 if tier == "thorough" else 1)))
     cmd = ["cbmc", cur, "--json-ui", "--drop-unused-functions"] + CBMC_CHECKS
     if job.get("unwind"):
         cmd += ["--unwind", str(job["unwind_thorough"] if tier == "thorough" and job.get("unwind_thorough") else job["unwind"]),
@@ -198,6 +198,8 @@ def run_job(job, work, tier):
     if job.get("solver"):
         cmd += ["--sat-solver", job["solver"]]
     jr.cmds.append(" ".join(cmd))
+    with open(os.path.join(d, "cmds.sh"), "w") as fh:
+        fh.write("\n".join(jr.cmds) + "\n")
     rc, out, s = run(cmd, timeout)
     jr.secs["cbmc"] = round(s, 2)
     if rc == -9:
